@@ -722,10 +722,17 @@ def w_dt_pr(S, item):
     ffwd, finv = item[5:7] if len(item) > 5 else (None, None)
     res = {'cmp': 1, 'diff': 0, 'findings': [], 'sample': None}
     as_form = lambda form, nm: 'tab:%s:%s' % (form, nm) if form else nm
-    f = S.construct(D2, 'DTCWTForward', biort=filt_arg(S, as_form(ffwd, biort), 'f'),
-                    qshift=filt_arg(S, as_form(ffwd, qshift), 'f'), J=J)
-    g = S.construct(D2, 'DTCWTInverse', biort=filt_arg(S, as_form(finv, biort), 'i'),
-                    qshift=filt_arg(S, as_form(finv, qshift), 'i'))
+    if biort == 'default':
+        # both modules built without any argument: the two sides must rely on matching defaults (documented:
+        # near_sym_a / qshift_a, J = 3)
+        f = S.construct(D2, 'DTCWTForward')
+        g = S.construct(D2, 'DTCWTInverse')
+        biort, qshift = 'near_sym_a', 'qshift_a'
+    else:
+        f = S.construct(D2, 'DTCWTForward', biort=filt_arg(S, as_form(ffwd, biort), 'f'),
+                        qshift=filt_arg(S, as_form(ffwd, qshift), 'f'), J=J)
+        g = S.construct(D2, 'DTCWTInverse', biort=filt_arg(S, as_form(finv, biort), 'i'),
+                        qshift=filt_arg(S, as_form(finv, qshift), 'i'))
     bx, x = base_tensor('x', 1, 1, [H, W])
     construct = 'DTCWTInverse(DTCWTForward(x))' + ('[filters as arrays]' if (ffwd or finv) else '')
     size_class = 'H%%4=%d,W%%4=%d' % (H % 4, W % 4)
